@@ -72,6 +72,15 @@ def check_leaves(rows, n, edges, nw, extract, scale=Fraction(1)):
     feasible = 0
     problem = None
     for val, descr, out in rows:
+        # path lengths are compared exactly: every branch condition is the sign of a form in the weights without constant term
+        # (a constant term is an absolute tolerance: near-ties and graphs with tiny weights would get wrong distances)
+        for k in val:
+            const = [Fraction(c[0], c[1]) for m, c in k[1] if not m]
+            big = [Fraction(c[0], c[1]) for m, c in k[1] if m]
+            if const and const[0] != 0 and big and abs(const[0]) < Fraction(10) ** 300:
+                pl = Poly({m: Fraction(c[0], c[1]) for m, c in k[1]})
+                problem = problem or ("a branch compares path lengths with an absolute offset: sign of `%s` (a tolerance of %s): paths that "
+                                      "differ by less, or graphs whose weights are that small, get wrong distances" % (pl, float(abs(const[0]) / max(abs(x) for x in big))))
         wit = [a for a in assigns if consistent(val, dict(zip(names, [Fraction(x) for x in a])))]
         if not wit:
             continue
